@@ -61,7 +61,8 @@ def ensure_driver():
     ex = _exdir()
     ml, mli, drv, exe = (os.path.join(ex, f) for f in ('graph_model.ml', 'graph_model.mli', 'driver.ml', 'driver'))
     mt = lambda p: os.path.getmtime(p) if os.path.exists(p) else -1.0     # noqa: E731
-    vsrc = [os.path.join(lib.COQ, f) for f in MODEL_FILES] + [os.path.join(lib.COQ, 'Gen', 'Generated.v')]
+    vsrc = [os.path.join(lib.COQ, f) for f in MODEL_FILES + ['Layout/Denorm.v', 'Layout/LayoutNorm.v', 'Parser/Format.v', 'Parser/Split.v', 'Parser/Merge.v']]
+    vsrc += [os.path.join(lib.COQ, 'Gen', 'Generated.v')]
     with open(os.path.join(lib.COQ, '.build.lock'), 'a') as lk:
         fcntl.flock(lk, fcntl.LOCK_EX)
         try:
@@ -140,7 +141,8 @@ FUNCS2 = ['max', 'min']
 BINOPS = ['+', '-', '*', '/', '**']
 CMPOPS = ['<', '<=', '==', '!=', '>', '>=']
 NUMS = ['1', '2', '0.5', '10', '3', '1.', '.5']
-PERIODS = ["'2000'", '"a"', '`2001`', "'2000Q1'"]
+PERIODS = ["'2000'", '"a"', '`2001`', "'2000Q1'", "'a  b'"]
+VERBS = ['np.pi', '(1  +  2)', 'np.pi *  2', '3']
 
 
 def term_id(name, idx):
@@ -160,8 +162,10 @@ def gen_tree(rng, names, depth=0):
         else:
             idx = rng.choice([0, 0, 0, 0, -1, -1, -2, 1, 1, 2, -3, 3])
         return ['var', kind, nm, idx]
-    if r < 0.52:
+    if r < 0.5:
         return ['num', rng.choice(NUMS)]
+    if r < 0.52:
+        return ['verb', rng.choice(VERBS)]
     if r < 0.58:
         return ['neg', gen_tree(rng, names, depth + 1)]
     if r < 0.78:
@@ -258,6 +262,8 @@ class Layout:
             return self.var(t[1], t[2], t[3])
         if k == 'num':
             return t[1]
+        if k == 'verb':
+            return '`' + t[1] + '`'
         if k == 'neg':
             return '-' + self.atom(t[1])
         if k == 'par':
@@ -283,7 +289,7 @@ class Layout:
 
     def atom(self, t):
         # an operand: parenthesised unless it binds tighter than every operator around it
-        if t[0] in ('var', 'num', 'call', 'par'):
+        if t[0] in ('var', 'num', 'call', 'par', 'verb'):
             return self.expr(t)
         return self.paren(t)
 
